@@ -228,3 +228,34 @@ def ecdh_mode(c, hash_name, curve):
     k = c.call(_gkdi.ECDHKey.unpack, kid.key_info)
     c.check(all_of([len(kid.key_info) == 8 + 2 * kl, k.key_length == kl, k.curve_name == curve, kid.is_public_key]), "ecdh: coordinates are fixed width")
     return True
+
+
+@harness(P, per_job=True, params=lambda tier: [dict(curve=cv, h1=a, h2=b) for cv, a, b in ([("P256", "SHA256", "SHA512"), ("P384", "SHA1", "SHA384")] if tier == "quick" else
+                                                                                        [("P256", a, b) for a in HASHES for b in HASHES if a != b][:6] + [("P384", "SHA512", "SHA1")])],
+         max_steps=800000, raises=(ScalarOutOfRange,),
+         bounds="a history in one process: the same L2 seed is used first under KDF hash h1 and then under a different hash h2 (ECDH P256/P384, public-key mode): the second "
+         "get_kek must still agree with the second new_kek (no state may leak from the first derivation)", outside="DH (same code path up to the agreement)",
+         must_reach=("history: second derivation agrees",))
+def two_hashes_same_seed(c, curve, h1, h2):
+    w, cap = _setup(c)
+    seed = c.bytes("l2seed", 64)
+    bits = {"P256": 256, "P384": 384}[curve]
+    kl = bits // 8
+    alg_name = f"ECDH_{curve}"
+    cname = {"P256": "secp256r1", "P384": "secp384r1"}[curve]
+    ctx = (alg_name + "\0").encode("utf-16-le")
+    res = []
+    for hn in (h1, h2):
+        x_bytes = cap.derive(dict(kind="kbkdf", algorithm=hn.lower(), mode=Mode.CounterMode, length=kl, rlen=4, llen=4, location=CounterLocation.BeforeFixed, label=LABEL,
+                                  context=ctx, fixed=None, break_location=None), seed)
+        x = V.int_from_bytes(x_bytes, "big") if c.symbolic else int.from_bytes(x_bytes, "big")
+        c.assume(all_of([x > 0, x < Algebra.CURVE_ORDER[cname]]))
+        el = w.algebra._ec_element(cname, ("G", "G"), [x])
+        pub = refs.ref_ecdh_key(curve, kl, el["x"], el["y"])
+        env_pub = _env(hn, alg_name, b"", bits, bits, 3, pub)
+        env_seed = _env(hn, alg_name, b"", bits, bits, 2, seed)
+        kek1, kid = c.call(env_pub.new_kek)
+        kek2 = c.call(env_seed.get_kek, kid)
+        res.append(seq_eq(kek1, kek2))
+    c.check(all_of(res), "history: second derivation agrees")
+    return True
